@@ -73,8 +73,8 @@ theorem pair_correlation_def {g : MA ℝ} (h : p.pairCorrelation = .ok (q, g)) :
   intro l i j hl hi hj
   rw [build_at _ _ _ _ hl hi hj]; simp [Operand.at]
 
-/-- `pmf = -kT ln g` entry by entry -/
-theorem pmf_def {w : MA ℝ} (h : p.pmf = .ok (q, w)) :
+/-- structural lemma about the MODEL (not a claim about the code for `g ≤ 0`): the model applies its scalar `log` to every entry of `g` -/
+theorem pmf_entry_model {w : MA ℝ} (h : p.pmf = .ok (q, w)) :
     ∃ g, p.pairCorrelation = .ok (q, g) ∧ w.space = .real ∧ w.length = g.length ∧ w.rank = g.rank ∧
       ∀ l i j, l < g.length → i < g.rank → j < g.rank → w.at l i j = -p.kT * Real.log (g.at l i j) := by
   unfold Prism.pmf at h
@@ -86,6 +86,15 @@ theorem pmf_def {w : MA ℝ} (h : p.pmf = .ok (q, w)) :
   refine ⟨g, hv, rfl, rfl, rfl, ?_⟩
   intro l i j hl hi hj
   rw [build_at _ _ _ _ hl hi hj]; simp
+
+/-- `pmf = -kT ln g` entry by entry, **wherever `g > 0`**.  (Mathlib's `Real.log` is totalised — `log 0 = 0`, `log x = log |x|` for
+`x < 0` — while the code returns `+inf` at `g = 0` and `nan` for `g < 0`; those two branches are not claimed here: they are
+compared on the implementation, `+inf` exactly where `g` is exactly zero.) -/
+theorem pmf_def {w : MA ℝ} (h : p.pmf = .ok (q, w)) :
+    ∃ g, p.pairCorrelation = .ok (q, g) ∧ w.space = .real ∧ w.length = g.length ∧ w.rank = g.rank ∧
+      ∀ l i j, l < g.length → i < g.rank → j < g.rank → 0 < g.at l i j → w.at l i j = -p.kT * Real.log (g.at l i j) := by
+  obtain ⟨g, a, b, c, d, e⟩ := pmf_entry_model h
+  exact ⟨g, a, b, c, d, fun l i j hl hi hj _ => e l i j hl hi hj⟩
 
 /-- `structure_factor = ρ_pair·ĥ + Ω` (with `Ω = ρ_site·ω` the stored array), divided by `ρ_site` when normalised -/
 theorem structure_factor_def {nz : Bool} {s : MA ℝ} (w : PWf p) (hsite : p.siteD.length = 1)
@@ -242,14 +251,15 @@ theorem spinodal_def {t : ℕ → ℕ → Option (Array ℝ)} {n' : ℕ} (h : p.
 /-! ## solvation potential -/
 
 /-- `solvation_potential`: the back-transform of `−kT·(Ĉ S Ĉ)` (HNC) or `−kT·ln(1 + Ĉ S Ĉ)` (PY), entry by
-entry in Fourier space, with `S` exactly what `structure_factor(normalize=True)` returns -/
+entry in Fourier space, with `S` exactly what `structure_factor(normalize=True)` returns.  The PY form is claimed only where the argument
+of the logarithm is positive (`Real.log` is totalised outside; the code gives `nan` / `-inf` there) -/
 theorem solvation_def {hnc : Bool} {out : MA ℝ} (h : p.solvation hnc = .ok (q, out)) :
     1 < p.n ∧ ∃ cF hF omF S cs csc psi,
       ensureFourier p.dom p.directCorr = .ok cF ∧ ensureFourier p.dom p.totalCorr = .ok hF ∧ ensureFourier p.dom p.omega = .ok omF ∧
       ({ p with directCorr := cF, totalCorr := hF, omega := omF } : Prism ℝ).structureFactor true = .ok (q, S) ∧
       cF.dot S = .ok cs ∧ cs.dot cF = .ok csc ∧ p.dom.maToReal psi = .ok out ∧
       psi.length = csc.length ∧ psi.rank = csc.rank ∧
-      ∀ l i j, l < csc.length → i < csc.rank → j < csc.rank →
+      ∀ l i j, l < csc.length → i < csc.rank → j < csc.rank → (hnc = false → 0 < 1 + csc.at l i j) →
         psi.at l i j = (if hnc then csc.at l i j * -p.kT else Real.log (1 + csc.at l i j) * -p.kT) := by
   unfold Prism.solvation at h
   simp only [bind, Except.bind, pure, Except.pure] at h
@@ -275,7 +285,7 @@ theorem solvation_def {hnc : Bool} {out : MA ℝ} (h : p.solvation hnc = .ok (q,
     refine ⟨by omega, cF, hF, omF, S, cs, csc, _, hcF, hhF, homF, hv, hcs, hcsc, ho, ?_, ?_, ?_⟩
     · cases hnc <;> rfl
     · cases hnc <;> rfl
-    · intro l i j hl hi hj
+    · intro l i j hl hi hj _
       cases hnc
       · simp only [Bool.false_eq_true, if_false]; rw [build_at _ _ _ _ hl hi hj]; simp
       · simp only [if_true]; rw [build_at _ _ _ _ hl hi hj]
